@@ -278,6 +278,27 @@ theorem C20_log_model_verdict_ok_partial (m : PathB → PathB → Bool) (errLen 
     simp [(hacc l hl).2]
   simp [h1, h2, Verdict.text]
 
+/-- With an `errors` directive in the block (it sits inside `log` in the directive order) no panic
+reaches the log middleware, so the hypothesis `o.panics = false` of the two theorems above holds
+for EVERY handler behaviour: panics are answered with 500 through the recorder and logged. -/
+theorem C20_errors_directive_contains_panics (errLen : Nat → Nat) (o : Outcome) :
+    (withErrors errLen o).panics = false := by
+  unfold withErrors
+  by_cases hp : o.panics = true
+  · simp [hp]
+  · by_cases hr : o.ret ≥ 400
+    · simp [hp, hr]
+    · simp only [hp, hr, if_false]
+      simpa using hp
+
+/-- test: a panicking handler behind `errors`: one line, status 500, size of the error body -/
+example :
+    let ds : List Directive := [{ scope := [47], excepts := [] }]
+    let r := serverServe cleanPathMatches (fun _ => 26) (logParse ds) [47, 120]
+      (withErrors (fun _ => 26) { ops := [], ret := 0, panics := true })
+    r.lines = [{ entry := 0, status := 500, size := 26 }] ∧ r.client.status = 500 ∧ r.client.size = 26 := by
+  decide
+
 /-- Witness for the recorded finding C20-first-rule-only (on the model; the stream shows the same
 on the real code): `log / a` then `log /a b`, request `/a/x` — log 1 gets no line. -/
 theorem C20_first_rule_only_fails_witness :
